@@ -420,9 +420,7 @@ def run(ctx):
     from . import C16
     # closures patched onto the PrefixedArray/PascalString macros must agree with the documented expansion: the size probe (C16.R6)
     for mod, rules in ((C03, ("C03.R1",)), (C10, ("C10.R4", "C10.R5")), (C16, ("C16.R6",))):
-        sub = _Ctx(mod.__name__.split(".")[-1], ctx.tier, ctx.root, model=ctx.model)
-        sub._summ = summariser(ctx)
-        mod.run(sub)
+        sub = shared_run(ctx, mod)
         for e in sub.errors:
             ctx.error("shared %s rules: %s" % (sub.prop, e))
         for o in sub.obligations:
